@@ -4,7 +4,7 @@ from harness.oracles import all as ALL
 
 ID = 'C01'
 UNITS = ['event_metrics', 'transcription_scores', 'multipitch_metrics', 'melody_metrics', 'seg_cluster_q', 'hier_gauc', 'weighted_accuracy', 'key_score', 'pattern_scores', 'alignment_scores', 'tempo_detection', 'beat_q', 'beat_ig', 'beat_ig_num']
-TRANSLATORS = ['scalarfuncs', 'vecfuncs', 'beatfuncs', 'patternfuncs']
+TRANSLATORS = ['scalarfuncs', 'vecfuncs', 'beatfuncs', 'patternfuncs', 'corefuncs']
 NOT_COVERED = 'Partial: AMI <= 1 and the alignment "perceptual" metric are not theorems; they are covered by the oracle only. Information gain in [0, 1], MI >= 0 and the NMI / NCE / V-measure ranges are Reals theorems on the exact histogram / contingency table, tied numerically inside Coq (beat_ig_num, seg_entropy_num).'
 ASSUMPTIONS = ['exact-arithmetic lattices for the correspondence (DESIGN.md section 2.1); NumPy/SciPy primitives as modelled per module']
 
